@@ -797,7 +797,21 @@ def _check_completeness(repo: Repo, rep: Report, tier, ot):
                      {("A", "B"): (1,), ("A", "C"): (1, 2), ("B", "D"): (2, 4), ("C", "D"): (2, 4)}]
         for pat in dpats:
             cases.append((dia, {("present", dia.key(*k), repr(t)): (t.k in on) for k, on in pat.items() for t in ids}))
-        for shape, seed in cases:
+        # a walk that passes through the target and comes back to it later (four ids: A-AB at t+1, AB-C at t+2, C-D at t+4, D-AB at t+5):
+        # the search must not stop at the first occurrence of v
+        ids4 = [T(k) for k in (1, 2, 4, 5)]
+        if directed:
+            ret = Shape("A->AB, AB->C, C->D, D->AB", ["A", "AB", "C", "D"], [("A", "AB"), ("AB", "C"), ("C", "D"), ("D", "AB")], True)
+        else:
+            ret = Shape("A-AB, AB-C, C-D, D-AB", ["A", "AB", "C", "D"], [("A", "AB"), ("AB", "C"), ("C", "D"), ("D", "AB")], False)
+        rpats = [{("A", "AB"): (1,), ("AB", "C"): (2,), ("C", "D"): (4,), ("D", "AB"): (5,)},
+                 {("A", "AB"): (1, 2), ("AB", "C"): (2, 4), ("C", "D"): (4,), ("D", "AB"): (4, 5)}]
+        for pat in rpats:
+            cases.append((ret, {("present", ret.key(*k), repr(t)): (t.k in on) for k, on in pat.items() for t in ids4}, ids4))
+        ids3 = ids
+        for case in cases:
+            shape, seed = case[0], case[1]
+            ids = case[2] if len(case) > 2 else ids3
             P = PresenceTable(shape, seed, ids)
             pres = ", ".join("%s%s%s@%s" % (k[1][0], "->" if directed else "-", k[1][1], k[2]) for k, v in sorted(seed.items(), key=str) if v) or "nothing"
             for window in ((None, None), (T(2), T(4))):
@@ -808,13 +822,13 @@ def _check_completeness(repo: Repo, rep: Report, tier, ot):
                     for vt in (None,) + ((("AB" if "AB" in shape.nodes else "C"),) if root == "A" else ()):
                         stats["runs"] += 1
                         wit = "%s %s | u=%s, v=%s, window=%s | present: %s" % (
-                            cls, shape.name, root, vt, "all ids (t+1, t+2, t+4)" if window[0] is None else "[t+2,t+4]", pres)
+                            cls, shape.name, root, vt, "all ids (%s)" % ", ".join(repr(t) for t in ids) if window[0] is None else "[t+2,t+4]", pres)
                         env = {"G": SelfV(), "u": NodeV(root), "v": NodeV(vt) if vt else NONE,
                                "start": window[0] if window[0] is not None else NONE, "end": window[1] if window[1] is not None else NONE,
                                "sample": Const(1)}
 
                         def once(ch, env=env):
-                            w = DagLoopWorld(cls, shape, ch, methods, functions, n_ids, True)
+                            w = DagLoopWorld(cls, shape, ch, methods, functions, n_ids, True, ids=ids)
                             ip = Interp(w, ot, max_depth=10)
                             try:
                                 return ip.call_function(fn_trp, dict(env)), None
@@ -861,7 +875,7 @@ def _check_completeness(repo: Repo, rep: Report, tier, ot):
                         cls, shape.name, "None" if window[0] is None else "t+2, t+4", "None" if min_t is None else "t+2", pres)
 
                     def once_all(ch, min_t=min_t):
-                        w = DagLoopWorld(cls, shape, ch, methods, functions, n_ids, True)
+                        w = DagLoopWorld(cls, shape, ch, methods, functions, n_ids, True, ids=ids)
                         ip = Interp(w, ot, max_depth=12)
                         env = {"G": SelfV(), "start": window[0] if window[0] is not None else NONE, "end": window[1] if window[1] is not None else NONE,
                                "sample": Const(1), "min_t": min_t if min_t is not None else NONE}
